@@ -155,11 +155,13 @@ check("C10",
       "and is well-formed UTF-8; truncate (translated from call.py) never exceeds its limit; send side: a Violation at any depth writes ABORT n "
       "CLOSE n for every open sequence, innermost first, returns to the root, keeps the connection up; for every event list a number-checking "
       "receiver never loses sync and receives exactly the finished objects; a fault-free object sent after any history is delivered in full, "
-      "histories only shift OPEN numbers; a non-Violation exception drops the connection (the one known finding). Tie: truncate, both sides' "
+      "histories only shift OPEN numbers; every OPEN gets the sender's number at a receiver that counts discarded OPENs too (handleData shape fact); "
+      "a non-Violation exception drops the connection (the one known finding). Tie: truncate, both sides' "
       "limits, the error handler, safe_str, elision constants and the doPop/sendAbort flags and statement orders of produce / handleSendViolation / "
       "popSlicer / pushSlicer / childAborted are read from the AST on every run; 216 batches (wire skeleton of the caller's bytes) and 137 Failure "
       "states (byte for byte) compared by vm_compute. Direct oracle on real Broker pairs: batches of 3-6 concurrent calls with the faulty call at "
-      "every position, 13 fault kinds, 7 exception classes x 21 message shapes, all 4 option settings: sibling results exact, connection up, "
+      "every position, 13 fault kinds, 7 exception classes x 21 message shapes, all 4 option settings, shared-container follow-up calls after every "
+      "fault: sibling results exact, connection up, "
       "callee ran exactly the expected methods, delivered failure identifies type/parents and carries a maximal message prefix, wrapped iff types "
       "are hidden, never a local Violation for a remote exception.",
       "Modelled, not verified: token values abstracted to one data token on the send side; the framing-checker receiver of Send.v is stricter than "
